@@ -38,9 +38,10 @@ var junkKeys = []string{"", " ", "foo", "MAX_N", "Max_Stake", "view_change", "la
 	"owner", "fields", "server_chain.nothing", "min_n\u0000", "version", "prev_magic_block", "used", "id"}
 
 // genSet appends one gov.set step. Step layout:
-//   A    caller: 0 stored owner of the target, 1 chain owner, 2 sc.yaml owner, >=3 account (A-3)
-//   I[0] target index, I[1] raw kind, I[2] fee kind, I[3] nonce kind
-//   S    k1, v1, k2, v2, ... (literal; values "@n" resolve to account n)
+//
+//	A    caller: 0 stored owner of the target, 1 chain owner, 2 sc.yaml owner, >=3 account (A-3)
+//	I[0] target index, I[1] raw kind, I[2] fee kind, I[3] nonce kind
+//	S    k1, v1, k2, v2, ... (literal; values "@n" resolve to account n)
 func genSet(r *sim.RNG, forceTarget int) sim.Step {
 	ti := forceTarget
 	if ti < 0 {
@@ -966,4 +967,3 @@ func (oc *oracle48) outputStability(w *ledger.World, bc *ledger.BlockCtx, o *led
 		w.Tr.Probe("refusal_output_depends_on_map_order/" + tg.name)
 	}
 }
-
